@@ -52,10 +52,17 @@ def module_desc(draw):
         base = None
         if i > 0 and draw(st.integers(0, 2)) == 0:
             base = draw(st.sampled_from(CLASS_NAMES[:i]))
+            if [c for c in classes if c['name'] == base][0]['methods'] == [
+                    'runTest']:
+                base = None
         kind = draw(st.sampled_from(['ReferenceTestCase', 'ReferenceTestCase',
                                      'unittest.TestCase']))
         methods = draw(st.lists(st.sampled_from(METHODS), min_size=1,
                                 max_size=4, unique=True))
+        if base is None and draw(st.integers(0, 7)) == 0:
+            # a class in unittest's older style: no test_* methods, one
+            # runTest method (never used as a base class here)
+            methods = ['runTest']
         tagged = draw(st.lists(st.sampled_from(methods), max_size=len(
             methods), unique=True))
         classes.append({'name': name, 'base': base, 'kind': kind,
@@ -103,6 +110,10 @@ def argv_desc(draw, classes):
                                   'tdda-last']))
     names = draw(st.lists(st.sampled_from([c['name'] for c in classes]),
                           max_size=2, unique=True))
+    if draw(st.integers(0, 9)) == 0:
+        # a name that cannot be loaded: an error of the run, with or
+        # without the tagged option (not combined with the listing option)
+        names = names + ['TestMissing']
     tail = draw(st.sampled_from([[], [], [], ['-W'], ['--write-all'],
                                  ['-w', 'table'], ['--write', 'a,b']]))
     if tail == ['-W'] and names:
@@ -114,6 +125,8 @@ def argv_desc(draw, classes):
         flags = tdda + before + after
     else:
         flags = before + after + tdda
+    if any(tdda_flag(f) and tdda_flag(f)[1] for f in flags):
+        names = [n for n in names if n != 'TestMissing']
     d = {'flags': flags, 'names': names, 'tail': tail}
     # unittest's own -k PATTERN, given after the single-dash flags; not
     # together with the listing option (what a narrowed listing names is
@@ -151,8 +164,11 @@ def assemble(argv, flags=None):
 def case_strategy(draw, tier):
     m = draw(module_desc())
     a = draw(argv_desc(m['classes']))
-    if m.get('load_tests'):
-        a.pop('k', None)    # -k does not reach tests a hook builds by hand
+    if m.get('load_tests') or any(c['methods'] == ['runTest']
+                                  for c in m['classes']):
+        # -k does not reach tests a hook builds by hand, and unittest falls
+        # back to runTest when -k leaves a class no test_* names
+        a.pop('k', None)
     return {'module': m, 'argv': a,
             'subprocess': draw(st.integers(0, 49)) == 0}
 
@@ -172,8 +188,12 @@ def valid(case):
                 return False
             if c['base'] is not None and c['base'] not in names[:i]:
                 return False
-            if not c['methods'] or any(m not in METHODS
-                                       for m in c['methods']):
+            if c['methods'] == ['runTest']:
+                if c['base'] is not None or any(
+                        x['base'] == c['name'] for x in cl):
+                    return False
+            elif not c['methods'] or any(m not in METHODS
+                                         for m in c['methods']):
                 return False
             if any(m not in c['methods'] for m in c['tagged_methods']):
                 return False
@@ -184,7 +204,10 @@ def valid(case):
         if any(c['class_tag'] and c['name'] in bases for c in cl):
             return False
         a = case['argv']
-        if any(n not in names for n in a['names']):
+        if any(n not in names + ['TestMissing'] for n in a['names']):
+            return False
+        if 'TestMissing' in a['names'] and any(
+                tdda_flag(f) and tdda_flag(f)[1] for f in a['flags']):
             return False
         for f in a['flags']:
             if f not in UNITTEST_FLAGS + ['--tagged', '--istagged'] and not (
@@ -196,7 +219,9 @@ def valid(case):
             return False
         if a.get('k') is not None and (a['k'] not in K_PATTERNS
                                        or a['tail'] == ['-W']
-                                       or case['module'].get('load_tests')):
+                                       or case['module'].get('load_tests')
+                                       or any(c['methods'] == ['runTest']
+                                              for c in cl)):
             return False
         if a.get('tail_pos', 'end') not in ('end', 'first', 'before-names'):
             return False
@@ -234,9 +259,11 @@ def module_source(desc, logpath):
                   '    for cls in (%s,):' % ', '.join(
                       c['name'] for c in desc['classes']),
                   '        inner = unittest.TestSuite()',
-                  '        inner.addTests(cls(m) for m in',
-                  '                       unittest.TestLoader()'
-                  '.getTestCaseNames(cls))',
+                  '        names = (unittest.TestLoader()'
+                  '.getTestCaseNames(cls)',
+                  '                 or (["runTest"] if hasattr(cls, '
+                  '"runTest") else []))',
+                  '        inner.addTests(cls(m) for m in names)',
                   '        suite.addTest(unittest.TestSuite([inner]))',
                   '    return suite', '']
     lines += ['if __name__ == "__main__":',
@@ -266,7 +293,8 @@ def model(desc, argv):
     flags = argv['flags']
     tagged = any(tdda_flag(f)[0] for f in flags if tdda_flag(f))
     check = any(tdda_flag(f)[1] for f in flags if tdda_flag(f))
-    selected = argv['names'] or [c['name'] for c in desc['classes']]
+    selected = [n for n in argv['names'] if n in cl] or (
+        [] if argv['names'] else [c['name'] for c in desc['classes']])
     all_tests, tag_tests, listed = [], [], []
     for cname in selected:
         meths = resolve(cname)
@@ -479,6 +507,15 @@ def run(case, ctx):
     if not accepted:
         out.label('rejected-by-both')
         return out
+    if 'TestMissing' in argv['names']:
+        out.label('unloadable-name')
+    if ('FAILED' in pse) != ('FAILED' in se_) and exp['mode'] != 'list':
+        out.violate('unittest-options-keep-meaning', 'run-outcome',
+                    'argv %r: plain unittest (%r) %s, the tdda run %s; '
+                    'stderr %r' % (shown, ' '.join(p_argv[1:]),
+                                   'FAILED' if 'FAILED' in pse else 'was OK',
+                                   'FAILED' if 'FAILED' in se_ else 'was OK',
+                                   se_[-300:]))
     if got_log != exp['executed']:
         missing = sorted(set(exp['executed']) - set(got_log))
         extra = sorted(set(got_log) - set(exp['executed']))
@@ -501,7 +538,8 @@ def run(case, ctx):
     # the pytest side of the same promise: referencepytest.tagged() on a
     # synthetic collection of this module's tests
     if exp['mode'] in ('tagged', 'list') and not argv['names'] and (
-            not argv.get('k')):
+            not argv.get('k')) and not any(
+            c['methods'] == ['runTest'] for c in desc['classes']):
         fl = [tdda_flag(f) for f in argv['flags'] if tdda_flag(f)]
         check_pytest_tagged(out, desc, mod, modname, exp,
                             both=(any(t[0] for t in fl)
@@ -519,6 +557,8 @@ def run(case, ctx):
             if x in extra_runs:
                 extra_runs.remove(x)
         ok_codes = (0,) if exp['executed'] else (0, 5)   # 5: no tests ran
+        if 'TestMissing' in argv['names']:
+            ok_codes = (1,)         # the run has an error
         if sorted(extra_runs) != exp['executed'] or (
                 r.returncode not in ok_codes):
             out.violate('subprocess-agrees', 'python-module.py',
